@@ -61,6 +61,9 @@ def replay_cmd(path):
     prop = doc["property"]
     cls = registry()[prop]
     r = core.replay_ops(cls, prop, doc.get("tier", "quick"), doc["config"], doc["ops"])
+    if r.get("harness"):
+        print("HARNESS-ERROR:", r["harness"])
+        return 2
     f = r["failure"]
     if f and cls(prop).owns(f["prop"]):
         print(f"replayed: step={f['step']} oracle={f['oracle']} op={f['op']} digest={r['digest']}")
